@@ -174,6 +174,10 @@ Proof.
   apply (nth_ext _ _ d d); [congruence|]. intros b Hb. apply HE; lia.
 Qed.
 
+Lemma hd_length {B} (m : list (list B)) C :
+  0 < length m -> Forall (fun row => length row = C) m -> length (hd [] m) = C.
+Proof. intros HL HF. destruct m as [|r0 m']; [cbn in HL; lia|]. inversion HF as [|? ? Hr0 ?]. exact Hr0. Qed.
+
 (* ---- transpose ---- *)
 Section Transpose.
 Context {B : Type} (d : B).
